@@ -243,6 +243,8 @@ pub open spec fn pair_facts(h: Range<usize>, t: Range<usize>, cr: Seq<Range<usiz
     &&& (sc <= ec && sc < n ==> hp.end <= cr[sc].start)
     &&& (sc <= ec && ec > 0 ==> cr[ec - 1].end <= tp.start)
     &&& (sc > ec ==> tp.start <= hp.end)
+    &&& (hp.end == h.end || exists|i: int| 0 <= i < sc && (#[trigger] cr[i]).end == hp.end)
+    &&& (tp.start == t.start || exists|j: int| ec <= j < n && (#[trigger] cr[j]).start == tp.start)
 }
 pub open spec fn children_ok(h: Range<usize>, t: Range<usize>, cr: Seq<Range<usize>>) -> bool {
     &&& forall|i: int| 0 <= i < cr.len() ==> h.start < (#[trigger] cr[i]).start && cr[i].start <= cr[i].end && cr[i].end < t.end
@@ -287,6 +289,11 @@ pub proof fn lemma_pair_facts(h: Range<usize>, t: Range<usize>, cr: Seq<Range<us
     assert forall|j: int| ec <= j < n implies tp.start <= (#[trigger] cr[j]).start by {
         assert(rv[n - 1 - j] == cr[j]);
         assert(tp.start <= rv[n - 1 - j].start);
+    }
+    if tp.start != t.start {
+        let q = choose|q: int| 0 <= q < bc && (#[trigger] rv[q]).start == tp.start;
+        assert(rv[q] == cr[n - 1 - q]);
+        assert(ec <= n - 1 - q < n && cr[n - 1 - q].start == tp.start);
     }
     if sc < n { assert(!touches(hp, cr[sc])); }
     if bc < n { assert(rv[bc] == cr[ec - 1]); assert(!touches(tp, cr[ec - 1])); }
@@ -546,6 +553,122 @@ pub proof fn lemma_mm_concat(f: Seq<GTree>, prev: Seq<RemoveMarker>, cm: Seq<Rem
         if markers_covered(tm, p) {
             let i = choose|i: int| 0 <= i < tm.len() && (#[trigger] tm[i]).0.start <= p < tm[i].0.end;
             assert(out[prev.len() + i] == tm[i]);
+        }
+    }
+}
+
+// ---- endpoints: every endpoint of a marker of mm_spec is an endpoint of a node range ----
+pub open spec fn cm_endpoint(cm: Seq<RemoveMarker>, x: usize) -> bool {
+    exists|k: int| 0 <= k < cm.len() && ((#[trigger] cm[k]).0.start == x || cm[k].0.end == x)
+}
+pub open spec fn seg_endpoints_ok(t: GTree, cm: Seq<RemoveMarker>, tm: Seq<RemoveMarker>) -> bool {
+    forall|i: int| 0 <= i < tm.len() ==> (node_self_endpoint(t, (#[trigger] tm[i]).0.start) || cm_endpoint(cm, tm[i].0.start))
+        && (node_self_endpoint(t, tm[i].0.end) || cm_endpoint(cm, tm[i].0.end))
+}
+pub proof fn lemma_tree_seg_endpoints(t: GTree, cm: Seq<RemoveMarker>, cur: int)
+    requires node_ranges_ok(t), markers_sorted(cm), markers_inside(cm, node_lo(t), node_hi(t)),
+    ensures seg_endpoints_ok(t, cm, tree_markers(t, cm, cur)),
+{
+    let tm = tree_markers(t, cm, cur);
+    let h = t.range.0;
+    let cr = marker_ranges(cm);
+    let n = cm.len() as int;
+    assert forall|i: int| 0 <= i < cm.len() implies (#[trigger] cr[i]) == cm[i].0 by {}
+    match t.range.1 {
+        Some(tail) => {
+            assert(children_ok(h, tail, cr)) by {
+                assert forall|i: int| 0 <= i < cr.len() implies h.start < (#[trigger] cr[i]).start && cr[i].start <= cr[i].end && cr[i].end < tail.end by { assert(cr[i] == cm[i].0); }
+                assert forall|i: int, j: int| 0 <= i < j < cr.len() implies (#[trigger] cr[i]).end <= (#[trigger] cr[j]).start by { assert(cr[i] == cm[i].0 && cr[j] == cm[j].0); }
+            }
+            lemma_pair_facts(h, tail, cr);
+            let a = mcm(cr, h);
+            let b = mcm(cr.reverse(), tail);
+            let sc = a.0; let hp = a.1; let bc = b.0; let tp = b.1; let ec = n - bc;
+            assert(node_self_endpoint(t, hp.start) && node_self_endpoint(t, tp.end));
+            assert(node_self_endpoint(t, hp.end) || cm_endpoint(cm, hp.end)) by {
+                if hp.end != h.end { let i = choose|i: int| 0 <= i < sc && (#[trigger] cr[i]).end == hp.end; assert(cm[i].0.end == hp.end); }
+            }
+            assert(node_self_endpoint(t, tp.start) || cm_endpoint(cm, tp.start)) by {
+                if tp.start != tail.start { let j = choose|j: int| ec <= j < n && (#[trigger] cr[j]).start == tp.start; assert(cm[j].0.start == tp.start); }
+            }
+            if sc > ec {
+                assert(tm =~= seq![(Range { start: hp.start, end: tp.end }, None::<usize>)]);
+            } else {
+                let mid = rebased(cm, sc, ec, cur);
+                let first = (hp, Some((cur + (ec - sc) + 1) as usize));
+                let last = (tp, Some(cur as usize));
+                assert(tm =~= seq![first] + mid + seq![last]);
+                assert forall|i: int| 0 <= i < tm.len() implies (node_self_endpoint(t, (#[trigger] tm[i]).0.start) || cm_endpoint(cm, tm[i].0.start))
+                    && (node_self_endpoint(t, tm[i].0.end) || cm_endpoint(cm, tm[i].0.end)) by {
+                    if 0 < i < tm.len() - 1 {
+                        assert(tm[i] == mid[i - 1]);
+                        assert(tm[i].0 == cm[sc + (i - 1)].0);
+                    }
+                }
+            }
+        },
+        None => {
+            lemma_tree_nopair(h, cm);
+            assert(tm =~= seq![(h, None::<usize>)]);
+        },
+    }
+}
+pub proof fn lemma_forest_endpoint_split(f: Seq<GTree>, x: usize)
+    requires f.len() > 0,
+    ensures forest_endpoint(f, x) <==> (forest_endpoint(f.drop_last(), x) || node_self_endpoint(f.last(), x) || forest_endpoint(f.last().children, x)),
+{
+    let g = f.drop_last();
+    if forest_endpoint(f, x) {
+        let i = choose|i: int| 0 <= i < f.len() && (node_self_endpoint(#[trigger] f[i], x) || forest_endpoint(f[i].children, x));
+        if i < g.len() { assert(g[i] == f[i]); }
+    }
+    if forest_endpoint(g, x) {
+        let i = choose|i: int| 0 <= i < g.len() && (node_self_endpoint(#[trigger] g[i], x) || forest_endpoint(g[i].children, x));
+        assert(f[i] == g[i]);
+    }
+    if node_self_endpoint(f.last(), x) || forest_endpoint(f.last().children, x) { assert(f[f.len() - 1] == f.last()); }
+}
+pub open spec fn mm_endpoints(f: Seq<GTree>, out: Seq<RemoveMarker>) -> bool {
+    forall|i: int| 0 <= i < out.len() ==> forest_endpoint(f, (#[trigger] out[i]).0.start) && forest_endpoint(f, out[i].0.end)
+}
+pub proof fn lemma_mm_endpoints(f: Seq<GTree>, lo: int, hi: int)
+    requires wf_forest(f, lo, hi),
+    ensures mm_endpoints(f, mm_spec(f)),
+    decreases f,
+{
+    if f.len() > 0 {
+        let g = f.drop_last();
+        let t = f.last();
+        assert(t == f[f.len() - 1]);
+        assert(wf_forest(g, lo, hi)) by {
+            assert forall|i: int| 0 <= i < g.len() implies lo < node_lo(#[trigger] g[i]) && node_hi(g[i]) < hi && node_ranges_ok(g[i]) by { assert(g[i] == f[i]); }
+            assert forall|i: int| 0 <= i < g.len() implies wf_forest((#[trigger] g[i]).children, node_lo(g[i]), node_hi(g[i])) by { assert(g[i] == f[i]); }
+            assert forall|i: int, j: int| 0 <= i < j < g.len() implies node_hi(#[trigger] g[i]) <= node_lo(#[trigger] g[j]) by { assert(g[i] == f[i] && g[j] == f[j]); }
+        }
+        lemma_mm_endpoints(g, lo, hi);
+        lemma_mm_endpoints(t.children, node_lo(t), node_hi(t));
+        lemma_mm_core(t.children, node_lo(t), node_hi(t));
+        let prev = mm_spec(g);
+        let cm = mm_spec(t.children);
+        let tm = tree_markers(t, cm, prev.len() as int);
+        lemma_tree_seg_endpoints(t, cm, prev.len() as int);
+        let out = prev + tm;
+        assert forall|i: int| 0 <= i < out.len() implies forest_endpoint(f, (#[trigger] out[i]).0.start) && forest_endpoint(f, out[i].0.end) by {
+            lemma_forest_endpoint_split(f, out[i].0.start);
+            lemma_forest_endpoint_split(f, out[i].0.end);
+            if i < prev.len() { assert(out[i] == prev[i]); }
+            else {
+                let k = i - prev.len();
+                assert(out[i] == tm[k]);
+                if cm_endpoint(cm, tm[k].0.start) {
+                    let q = choose|q: int| 0 <= q < cm.len() && ((#[trigger] cm[q]).0.start == tm[k].0.start || cm[q].0.end == tm[k].0.start);
+                    assert(forest_endpoint(t.children, cm[q].0.start) && forest_endpoint(t.children, cm[q].0.end));
+                }
+                if cm_endpoint(cm, tm[k].0.end) {
+                    let q = choose|q: int| 0 <= q < cm.len() && ((#[trigger] cm[q]).0.start == tm[k].0.end || cm[q].0.end == tm[k].0.end);
+                    assert(forest_endpoint(t.children, cm[q].0.start) && forest_endpoint(t.children, cm[q].0.end));
+                }
+            }
         }
     }
 }
